@@ -60,7 +60,11 @@ def remove_mm_fields_if_present(raw_block_hex, leave_btcblock=True, hex=True):
     else:
         block_without_mm_fields = block if leave_btcblock else block[:-1]
 
-    block_without_mm_fields_rlp = rlp.encode(block_without_mm_fields)
+    try:
+        block_without_mm_fields_rlp = rlp.encode(block_without_mm_fields)
+    except Exception as e:
+        # E.g., RecursionError for fields nested too deep to be re-encoded
+        raise ValueError(e)
 
     if not hex:
         return block_without_mm_fields_rlp
